@@ -141,6 +141,24 @@ def check_case(ctx, out, desc, fn, keep_ids, arg):
             out.spec_fail(dict(canon, symptom='dropped'), f'{fn} dropped a branch', gen_net.pretty(desc), desc=desc, fn=fn, keep_ids=keep_ids, arg=arg); return
         out.nontrivial((fn, gen_net.shape(desc), bool(keep_ids)))
         return
+    # ---- oracle: passive_network preserves the port impedance between surviving nodes
+    if fn == 'passive_network' and not keep_ids:
+        labs = sorted({b.node1 for b in res.branches} | {b.node2 for b in res.branches})
+        if len(labs) >= 2:
+            rng = core.Rng(len(desc['branches']), 'port', desc['zero'])
+            a, b2 = rng.sample(labs, 2)
+            def port_z(j):
+                j = dict(zero=j['zero'], branches=[dict(br, e=dict(br['e'], b=['0', '0'])) for br in j['branches']] +
+                         [dict(n1=b2, n2=a, id='__probe__', ty='current_source', e=dict(k='T', a=['0', '0'], b=['1', '0']))])
+                r = drv.call('wellposed', net=j)
+                return None if not r['wellposed'] else core.cfloat(r['pot'][a]) - core.cfloat(r['pot'][b2])
+            z0, z1 = port_z(jnet), port_z(gen_net.impl_to_json(res))
+            if z0 is not None and z1 is not None:
+                out.count('port_impedance_compared')
+                if not core.close(z0, z1, abs(z0), 1e-8):
+                    out.spec_fail(dict(canon, symptom='port_impedance_changed'), f'passive_network changed the impedance between {a!r} and {b2!r}',
+                                  gen_net.pretty(desc), spec=dict(original=str(z0), passive=str(z1)), desc=desc, fn=fn, keep_ids=keep_ids, arg=arg)
+                    return
     # ---- oracle: solutions agree on what survives (needs both sides well-posed)
     if fn in ('remove_ideal_current_sources', 'remove_ideal_voltage_sources', 'passive_network'):
         # compare with the reference composition of the already-checked primitives' *spec*: all
@@ -174,6 +192,7 @@ def check_case(ctx, out, desc, fn, keep_ids, arg):
                           spec=dict(orig=(str(po[o.node1]), str(po[o.node2]), str(io[b.id])), new=(str(pr[b.node1]), str(pr[b.node2]), str(ir[b.id]))),
                           desc=desc, fn=fn, keep_ids=keep_ids, arg=arg)
             return
+    out.count('solution_compared')
     out.sample(dict(fn=fn, keep=keep_ids, arg=arg, net=gen_net.pretty(desc)))
 
 def gen_case(rng):
